@@ -377,16 +377,32 @@ pub struct RunOut { pub digest: u64, pub nontrivial: bool, pub counters: BTreeMa
 
 fn bump(m: &mut BTreeMap<String, u64>, k: &str, n: u64) { *m.entry(k.to_string()).or_insert(0) += n; }
 
+/// Wall-clock bound for one run (a run takes milliseconds; its machines are bounded by
+/// `max_steps`). A run that exceeds it is reported as a machine that was not stopped; the verdict
+/// is believed only if the replay in a fresh process exceeds the bound again (see check.rs).
+pub const HANG_DEADLINE_S: u64 = 8;
+
 pub fn execute(pl: &Plan) -> RunOut {
   let pl2 = pl.clone();
-  let r = crate::hashseed::on_node_thread(pl.hash_seed, move || execute_on_thread(&pl2));
+  let progress: std::sync::Arc<std::sync::Mutex<(String, Vec<String>)>> = Default::default();
+  let p2 = progress.clone();
+  let r = crate::hashseed::on_node_thread_deadline(pl.hash_seed, HANG_DEADLINE_S, move || execute_on_thread(&pl2, &p2));
   match r {
     Ok(o) => o,
-    Err(msg) => RunOut { digest: 0, nontrivial: false, counters: BTreeMap::new(), violation: Some(Violation { class: "host-aborted".into(), signature: "host-aborted|thread".into(), summary: format!("node thread died: {}", msg) }), log: vec![] },
+    Err(Some(msg)) => RunOut { digest: 0, nontrivial: false, counters: BTreeMap::new(), violation: Some(Violation { class: "host-aborted".into(), signature: "host-aborted|thread".into(), summary: format!("node thread died: {}", msg) }), log: vec![] },
+    Err(None) => {
+      // the node thread is still inside interpret(): this process must not serve further runs
+      crate::supervisor::EXIT_AFTER_RUN.store(true, std::sync::atomic::Ordering::SeqCst);
+      let (doing, mut log) = progress.lock().map(|g| g.clone()).unwrap_or_default();
+      log.push(format!("{} => no answer after {} s of wall clock", doing, HANG_DEADLINE_S));
+      let mut counters = BTreeMap::new();
+      bump(&mut counters, "reach:run-exceeded-wall-clock-bound", 1);
+      RunOut { digest: 0, nontrivial: false, counters, violation: Some(Violation { class: "machine-not-stopped".into(), signature: "machine-not-stopped|hang".into(), summary: format!("`{}` did not return within {} s (neither a value nor the transition-limit error)", doing, HANG_DEADLINE_S) }), log }
+    }
   }
 }
 
-fn execute_on_thread(pl: &Plan) -> RunOut {
+fn execute_on_thread(pl: &Plan, progress: &std::sync::Arc<std::sync::Mutex<(String, Vec<String>)>>) -> RunOut {
   let mut counters = BTreeMap::new();
   let mut log = vec![];
   let mut dig = Digest::new();
@@ -408,6 +424,7 @@ fn execute_on_thread(pl: &Plan) -> RunOut {
       Ok(t) if code_items(&t).map(|c| c.len() >= 1).unwrap_or(false) => t,
       _ => { bump(&mut counters, "reach:not_code", 1); log.push(format!("#{} [dropped: the machine text did not parse as code]\n{}", idx, text)); break; }
     };
+    if let Ok(mut g) = progress.lock() { g.0 = format!("#{} {} max_steps={}", idx, inv_text, budget); g.1 = log.clone(); }
     let outcome = node.interpret(&tree);
     declared = true;
     bump(&mut counters, "steps", 1);
@@ -499,6 +516,14 @@ pub fn worker_run(seed: u64, k: u64) -> J {
   let pl = plan(seed, k);
   let out = execute(&pl);
   let violations: Vec<J> = out.violation.iter().map(|v| {
+    if v.signature == "machine-not-stopped|hang" {
+      // no re-execution here (every attempt leaves a spinning thread behind): keep the invocations
+      // up to the one that did not return; the fresh-process replay confirms it
+      let n_done = out.log.len(); // one line per answered invocation + the final "no answer" line
+      let mut fpl = pl.clone(); fpl.invocations.truncate(n_done.max(1));
+      return json!({"properties": ["C17"], "class": v.class, "signature": v.signature, "summary": format!("run {}: {}", k, v.summary),
+        "replay": {"world": "W5", "seed": seed, "run": k, "plan": fpl, "machine_text": fpl.machine.render(), "invocations": fpl.invocations.iter().map(|(i, b)| format!("{} with max_steps={}", render_invocation_for(&fpl.machine, i), b)).collect::<Vec<_>>(), "event_log": out.log, "violation": v, "faults": fpl.invocations.iter().map(|(i, b)| format!("{:?} budget {}", i, b)).collect::<Vec<_>>()}});
+    }
     let min = minimise(&pl, &v.signature);
     let o2 = execute(&min);
     let (fpl, fo) = if o2.violation.as_ref().map(|x| x.signature == v.signature).unwrap_or(false) { (min, o2) } else { (pl.clone(), execute(&pl)) };
